@@ -39,7 +39,8 @@ Fixpoint rt_ok (c : codec) {struct c} : Prop :=
   | CSliceLen c' | CSliceProto c' => rt_ok c' /\ wire c' = WTLength /\ top_ok c'
   | CMap kc vc | CMapProto kc vc => rt_ok kc /\ rt_ok vc /\ top_ok kc /\ top_ok vc
   | CJMap | CJArr => True
-  | _ => False
+  | CBottom => True   (* the unfolding limit of a recursive type: no value is ever written under it ([wfv]) *)
+  | CBQ => False
   end.
 
 (** ** well-typed values that are written (not omitted by pointer / null) *)
@@ -1128,6 +1129,8 @@ Proof.
     cbn [wfv] in Hw. destruct v as [| | | | | | | | | | |nm j|]; try contradiction. destruct j as [| | | | |l| |]; try contradiction.
     cbn [fits] in Hf. cbn [enc app dec merge wire].
     rewrite (json_array_roundtrip l rest Hf Hw). reflexivity.
+  - (* the unfolding limit: nothing well-typed is written here *)
+    cbn [wfv] in Hw. destruct v; contradiction.
 Qed.
 
 Theorem roundtrip : forall c, rt_ok c -> top_ok c -> RTc c.
